@@ -27,6 +27,7 @@ func init() {
 			{Name: "image-limit-gt", File: "artifact/image/layerscanning/image/image.go", Old: "if numBytes >= img.config.MaxFileBytes || errors.Is(err, io.EOF) {", New: "if numBytes > img.config.MaxFileBytes || errors.Is(err, io.EOF) {", Rule: "D4-image", Site: "comparison"},
 			{Name: "image-no-limitreader", File: "artifact/image/layerscanning/image/image.go", Old: "io.Copy(f, io.LimitReader(tarReader, img.config.MaxFileBytes))", New: "io.Copy(f, tarReader)", Rule: "D4-image", Site: "LimitReader"},
 		},
+		Neutral: handleFileNeutral,
 	})
 }
 
